@@ -356,6 +356,14 @@ func (g *ogen) node(d int, allowFail bool) onode {
 		}
 		c := g.seq(d-1, allowFail)
 		f := g.failing()
+		if r.Chance(20) {
+			// the failure is raised while the arguments of a writer command are evaluated: whatever the
+			// command had installed is gone afterwards, a later value is escaped by the Set's escaper again
+			f = onode{src: r.Pick([]string{"{{ raw: nope.x }}", "{{ unsafe: st.Missing }}", "{{ safeHtml: li[9] }}", "{{ raw: fail(\"x\") }}", "{{ sa | raw: nope }}", "{{ raw: includeIfExists(\"/obroken.jet\") }}"}), out: "", failOff: 0}
+			cv := r.Pick([]string{"", " err"})
+			after := onode{src: "<{{sa}}|{{ \"a<b\" }}>", out: "<" + g.escape(g.strVals["sa"]) + "|" + g.escape("a<b") + ">", failOff: -1}
+			return cat(wrap("{{try}}"+body.src+f.src+g.dead(0).src+"{{catch"+cv+"}}", c, "{{end}}"), after)
+		}
 		cv := r.Pick([]string{"", " err"})
 		probe := ""
 		probeOut := ""
@@ -380,6 +388,20 @@ func (g *ogen) node(d int, allowFail bool) onode {
 			}
 			c := cs[r.Intn(len(cs))]
 			return onode{src: c[0], out: c[1], failOff: -1}
+		}
+		if r.Chance(15) {
+			// what a Go function declares from inside an included template (Runtime.Let / SetOrLet) belongs
+			// to that template like a := of its own: it is gone after the include, in every iteration
+			g.nfile++
+			name := fmt.Sprintf("/incl%d.jet", g.nfile)
+			v := g.freshVar()
+			api := r.Pick([]string{"apiLet", "apiSetOrLet"})
+			g.p.files[name] = fmt.Sprintf("{{ %s(%q, 7) }}({{%s}})", api, v, v) + r.Pick([]string{"", "{{if true}}{{ " + v + "b := 1 }}{{end}}"})
+			if r.Bool() {
+				return onode{src: fmt.Sprintf("{{include %q}}[{{isset(%s)}}]", name, v), out: "(" + g.E(7) + ")[" + g.E("false") + "]", failOff: -1}
+			}
+			return onode{src: fmt.Sprintf("{{range ints(0, 2)}}<{{isset(%s)}}>{{include %q}}{{end}}[{{isset(%s)}}]", v, name, v),
+				out: "<" + g.E("false") + ">(" + g.E(7) + ")<" + g.E("false") + ">(" + g.E(7) + ")[" + g.E("false") + "]", failOff: -1}
 		}
 		g.nfile++
 		name := fmt.Sprintf("/inc%d.jet", g.nfile)
@@ -626,6 +648,7 @@ func genOracleProgram(r *h.Rand, flavor string) (*prog, *sx.Sexp) {
 	p.files["/obroken2.jet"] = "{{extends \"/onowhere.jet\"}}"
 	vars.Add(bind("trimSpace", vFunc("shout")))
 	p.globals.Add(bind("html", vFunc("shout")))
+	p.globals.Add(bind("apiLet", vJFunc("apiLet"))).Add(bind("apiSetOrLet", vJFunc("apiSetOrLet")))
 	p.vars = vars
 	p.data = vStr("c<x")
 	g.ctxOut = g.escape("c<x")
